@@ -19,6 +19,37 @@ from .frontend import Repo, AnalysisError
 from .report import Report, VERIF
 
 
+def _patched_run(job):
+    """apply one patch to a temporary copy of the analysed tree and run the property's quick rules there (worker process)"""
+    prop, root, patch = job
+    mod = importlib.import_module("pmv.props." + prop.lower())
+    tmp = tempfile.mkdtemp(prefix="pmv_selftest_")
+    try:
+        shutil.copytree(os.path.join(root, "pymeeus"), os.path.join(tmp, "pymeeus"))
+        r = subprocess.run(["patch", "-p1", "-s", "-d", tmp, "-i", patch], capture_output=True, text=True)
+        if r.returncode != 0:
+            return ("skip", None)
+        repo2 = Repo(root=tmp, parse_gate=False)
+        rep2 = Report(prop, "quick")
+        try:
+            mod.run(repo2, rep2, "quick")
+        except AnalysisError as e:
+            return ("analysis-error", str(e))
+        except Exception as e:          # a crash of the checker on this tree
+            return ("analysis-error", "%s: %s" % (type(e).__name__, e))
+        return ("ok", sorted((f.rule, f.site, f.key) for f in rep2.findings))
+    finally:
+        shutil.rmtree(tmp, ignore_errors=True)
+
+
+def _parallel(jobs):
+    if not jobs:
+        return []
+    from concurrent.futures import ProcessPoolExecutor
+    with ProcessPoolExecutor(max_workers=min(14, len(jobs))) as ex:
+        return list(ex.map(_patched_run, jobs))
+
+
 def run(prop, repo, rep):
     extra = {}
     # (1) second opinion on the algebra
@@ -46,35 +77,48 @@ def run(prop, repo, rep):
     seeds = sorted(glob.glob(os.path.join(VERIF, "seeded", prop + "-*", "patch.diff")))
     caught, missed = [], []
     mod = importlib.import_module("pmv.props." + prop.lower())
-    for patch in seeds:
+    results = _parallel([(prop, repo.root, patch) for patch in seeds])
+    for patch, (status, data) in zip(seeds, results):
         sid = os.path.basename(os.path.dirname(patch))
         meta_p = os.path.join(os.path.dirname(patch), "meta.json")
         expected = True
         if os.path.exists(meta_p):
             import json
             expected = json.load(open(meta_p)).get("caught_by_own_check", True)
-        tmp = tempfile.mkdtemp(prefix="pmv_selftest_")
-        try:
-            shutil.copytree(os.path.join(repo.root, "pymeeus"), os.path.join(tmp, "pymeeus"))
-            r = subprocess.run(["git", "apply", "--unsafe-paths", "--directory=" + tmp, patch], capture_output=True, text=True, cwd=tmp)
-            if r.returncode != 0:
-                r = subprocess.run(["patch", "-p1", "-s", "-d", tmp, "-i", patch], capture_output=True, text=True)
-            if r.returncode != 0:
-                rep.notes.append("selftest: %s does not apply to the current tree (skipped)" % sid)
+        if status == "skip":
+            rep.notes.append("selftest: %s does not apply to the current tree (skipped)" % sid)
+            continue
+        n = len(data) if status == "ok" else 0
+        (caught if n else missed).append(sid)
+        if not n and expected:
+            print("ANALYSIS-ERROR property=%s checker self-test: seeded change %s is no longer detected" % (prop, sid))
+            return 2, extra
+    # (4) silence on the behaviour-preserving corpus: every /verif/benign/*/patch.diff (clean-up edits with an equivalence
+    #     demonstration) is applied to a copy of the analysed tree; this property's check must not report anything it does not
+    #     report on the tree itself.  Only done when the tree itself is free of new findings.
+    base_keys = {(f.rule, f.site, f.key) for f in rep.findings}
+    from .report import load_known
+    known = {(k.get("rule"), k.get("site"), k.get("key")) for k in load_known() if k.get("property") == prop and k.get("status") == "known"}
+    silent, skipped = [], []
+    if not (base_keys - known):
+        patches = sorted(glob.glob(os.path.join(VERIF, "benign", "*", "patch.diff")))
+        results = _parallel([(prop, repo.root, patch) for patch in patches])
+        for patch, (status, data) in zip(patches, results):
+            bid = os.path.basename(os.path.dirname(patch))
+            if status == "skip":
+                skipped.append(bid)
                 continue
-            repo2 = Repo(root=tmp, parse_gate=False)
-            rep2 = Report(prop, "quick")
-            try:
-                mod.run(repo2, rep2, "quick")
-                n = len(rep2.findings)
-            except AnalysisError:
-                n = 0
-            (caught if n else missed).append(sid)
-            if not n and expected:
-                print("ANALYSIS-ERROR property=%s checker self-test: seeded change %s is no longer detected" % (prop, sid))
+            if status == "analysis-error":
+                print("ANALYSIS-ERROR property=%s checker self-test: behaviour-preserving change set %s breaks the analysis: %s" % (prop, bid, data))
                 return 2, extra
-        finally:
-            shutil.rmtree(tmp, ignore_errors=True)
+            new = {tuple(x) for x in data} - base_keys
+            if new:
+                print("ANALYSIS-ERROR property=%s checker self-test: false alarm on the behaviour-preserving change set %s: %s"
+                      % (prop, bid, sorted(new)[0]))
+                return 2, extra
+            silent.append(bid)
+        rep.notes.append("thorough: silent on %d behaviour-preserving change set(s)%s" % (len(silent), (", %d not applicable to this tree" % len(skipped)) if skipped else ""))
+    extra["selftest_benign_silent"] = silent
     extra["selftest_seeds_caught"] = caught
     extra["selftest_seeds_not_caught_documented"] = missed
     if seeds:
